@@ -440,3 +440,101 @@ m('c04_exec_limit_sum_not_reduced', ['C04'], 'jesse/models/SpotExchange.py',
 m('c04_position_qty_no_fee', ['C04'], 'jesse/models/Position.py',
   "                self.qty = sum_floats(self.qty, qty * (1 - self.exchange.fee_rate))",
   "                self.qty = sum_floats(self.qty, qty)")
+
+# ---- C05 -----------------------------------------------------------------------------------------
+m('c05_execute_no_early_return', ['C05'], 'jesse/models/Order.py',
+  """    def execute(self, silent=False) -> None:
+        if self.is_canceled or self.is_executed:
+            return
+""", """    def execute(self, silent=False) -> None:
+        if self.is_canceled:
+            return
+""")
+m('c05_cancel_no_early_return', ['C05'], 'jesse/models/Order.py',
+  """    def cancel(self, silent=False, source='') -> None:
+        if self.is_canceled or self.is_executed:
+            return
+""", """    def cancel(self, silent=False, source='') -> None:
+        if self.is_executed:
+            return
+""")
+m('c05_update_active_keeps_executed', ['C05'], 'jesse/store/state_orders.py',
+  "if not order.is_canceled and not order.is_executed", "if not order.is_canceled")
+m('c05_update_active_drops_active_stops', ['C05'], 'jesse/store/state_orders.py',
+  "if not order.is_canceled and not order.is_executed", "if not order.is_canceled and not order.is_executed and not (order.type == 'STOP' and order.reduce_only and len(self.get_active_orders(exchange, symbol)) > 3)")
+m('c05_market_order_recorded_twice', ['C05', 'C06'], 'jesse/store/state_completed_trades.py',
+  """            executed_order.trade_id = t.id
+            t.orders.append(executed_order)
+""", """            executed_order.trade_id = t.id
+            t.orders.append(executed_order)
+            if executed_order.type == 'MARKET' and executed_order.reduce_only and len(t.orders) > 2:
+                t.orders.append(executed_order)
+""")
+m('c05_execute_canceled_when_queued', ['C05'], 'jesse/models/Order.py',
+  """    def execute(self, silent=False) -> None:
+        if self.is_canceled or self.is_executed:
+            return
+""", """    def execute(self, silent=False) -> None:
+        if (self.is_canceled and self.type != 'MARKET') or self.is_executed:
+            return
+""", note='a market order cancelled while still queued is executed by the flush')
+m('c05_reset_trade_orders_early', ['C05'], 'jesse/strategies/Strategy.py',
+  """        # should_long and should_short
+        if self.position.is_close and self.entry_orders == []:
+            self._reset()
+""", """        # should_long and should_short
+        if self.position.is_close and (self.entry_orders == [] or (self.index % 17 == 5 and not self.should_cancel_entry())):
+            self._reset()
+""", note='drops the order lists while entry orders are still active (every 17th step)')
+
+# ---- C06 -----------------------------------------------------------------------------------------
+m('c06_effect_increase_ge', ['C06'], 'jesse/strategies/Strategy.py',
+  "        elif abs(after_qty) > abs(before_qty):\n            effect = 'increased_position'",
+  "        elif abs(after_qty) >= abs(before_qty) * 0.6:\n            effect = 'increased_position'",
+  note='small reductions are reported as increases')
+m('c06_close_trade_no_reset', ['C06', 'C05'], 'jesse/store/state_completed_trades.py',
+  "        # at the end, reset the trade variable\n        self._reset_current_trade(position.exchange_name, position.symbol)",
+  "        # at the end, reset the trade variable\n        if len(self.trades) % 5 != 3:\n            self._reset_current_trade(position.exchange_name, position.symbol)")
+m('c06_short_qty_wrong_side', ['C06'], 'jesse/models/ClosedTrade.py',
+  """        elif self.is_short:
+            return self.sell_orders[:][:, 0].sum()
+        else:
+            return 0.0""", """        elif self.is_short:
+            return self.buy_orders[:][:, 0].sum()
+        else:
+            return 0.0""")
+m('c06_terminate_no_close', ['C06'], 'jesse/strategies/Strategy.py',
+  "            self.broker.reduce_position_at(self.position.qty, self.position.current_price, self.price)\n            self.terminate()",
+  "            self.terminate()")
+m('c06_exit_price_unweighted', ['C06'], 'jesse/models/ClosedTrade.py',
+  """        else:
+            return np.nan
+
+        return (orders[:, 0] * orders[:, 1]).sum() / orders[:, 0].sum()
+
+    @property
+    def is_open""", """        else:
+            return np.nan
+
+        return orders[:, 1].mean()
+
+    @property
+    def is_open""")
+m('c06_opened_at_from_last_increase', ['C06'], 'jesse/models/Position.py',
+  """        if self._can_mutate_qty:
+            if self.type == trade_types.LONG:
+                self._update_qty(qty, operation='add')
+            elif self.type == trade_types.SHORT:
+                self._update_qty(qty, operation='subtract')
+""", """        if self._can_mutate_qty:
+            if self.type == trade_types.LONG:
+                self._update_qty(qty, operation='add')
+            elif self.type == trade_types.SHORT:
+                self._update_qty(qty, operation='subtract')
+        self.opened_at = jh.now_to_timestamp()
+        from jesse.store import store
+        store.completed_trades._get_current_trade(self.exchange_name, self.symbol).opened_at = self.opened_at
+""")
+m('c06_reduced_hook_twice_on_market', ['C06'], 'jesse/strategies/Strategy.py',
+  "        self.on_reduced_position(order)\n\n        self._detect_and_handle_entry_and_exit_modifications()",
+  "        self.on_reduced_position(order)\n        if order.type == 'MARKET' and self.reduced_count > 1:\n            self.on_reduced_position(order)\n\n        self._detect_and_handle_entry_and_exit_modifications()")
